@@ -14,6 +14,12 @@ CHECKS = {
  "C16": ("exploration", "bounded exhaustive enumeration of packed k-mers and rolling windows against a string-level model",
          "Complete for k<=11 (13 thorough); for every k and width all strings within Hamming distance 2 of six backgrounds isolate each 2-bit lane, mask and shift constant; rolling state is compared with the model and a from-scratch object at every window, with N at every position.",
          "Packing convention (A,C,T,G = 0..3, first letter most significant) restated independently in the harness.", "DESIGN.md §5 C16"),
+ "C06": ("exploration", "bounded exhaustive enumeration of forged tables x all filter settings, real filter/align vs the row predicate of the statement",
+         "Rows are independent in every filter, so all rows over the 16-symbol alphabet (1..3 samples), all ordered pairs/triples of representative rows (alignment of the parallel vectors under removal) and pattern rows up to 12 samples, each under all 4x2x2x2 settings and every threshold, cover the predicate completely for the row and the bookkeeping for the table.",
+         "Forged tables enter through the public MergeSkaDict::build_from_array/MergeSkaArray::new; all-gap rows excluded as unreachable.", "DESIGN.md §5 C06"),
+ "C14": ("exploration", "bounded exhaustive enumeration of unambiguous tables x thresholds x flags, real distance output vs model, byte-exact",
+         "All tables of up to 3 rows over {A,C,G,-}^n for n=2..4, pattern rows to 12 samples, all thresholds, both ambiguity flags, sample permutations: Hamming/Jaccard integers and the bookkeeping of pre-filtered constant sites are decided per pair on every table.",
+         "Same formatting of the same single division as the CLI; threads=1 (thread variation is C11's).", "DESIGN.md §5 C14"),
  "C15": ("exploration", "complete enumeration of finite domains (table cells, ordered observation sequences) against a set-algebra reference model, on the real tables and through real build/map",
          "Every cell of both lookup tables, every letter of the classification/weight domains and every ordered sequence of <=4 observations are enumerated (exhaustive: true); the domains are finite so nothing is left to a bound.",
          "Trusts the harness's 15-entry code<->set bijection; U is outside the algebra.", "DESIGN.md §5 C15"),
